@@ -8,7 +8,7 @@
    d x x = 0, d x z <= d x y + d y z;  `qform n S w` = sum_j sum_i S_ij w_i w_j;  `psd n S` = qform >= 0. *)
 From Coq Require Import List Arith ZArith Bool Reals Lra Lia.
 From SC Require Import Base.Num C17.Model C17.Spec C17.ProofsSum C17.ProofsQuad C17.ProofsDist
-     C17.ProofsHamming C17.ProofsMinkowski.
+     C17.ProofsHamming C17.ProofsMinkowski C17.ProofsInverse C17.ProofsCov.
 Import ListNotations.
 Local Open Scope R_scope.
 
@@ -76,6 +76,43 @@ Theorem C17_hamming_definite : forall (A : Type) (neqb : A -> A -> bool),
   (forall a b, neqb a b = false <-> a = b) ->
   forall x y, (0 < length x)%nat -> hamming ROps neqb x y = Some 0 -> x = y.
 Proof. exact @hamming_zero_iff_equal. Qed.
+
+(* ---------------- from the covariance to the metric (Mahalanobis::new / new_from_covariance) ------- *)
+(* the sigma stored by Mahalanobis::new (model of DenseMatrix::cov): column means, centred cross
+   products over m - 1, symmetric, and positive semi-definite as soon as there are two rows *)
+Theorem C17_covariance_closed_form_psd : forall ncols rows C,
+  cov ROps ncols rows = Some C ->
+  let mu := column_mean ROps ncols rows in
+  let m := length rows in
+  (forall c, (c < ncols)%nat -> nth c mu 0 = sigma m (fun k => nth c (nth k rows []) 0) / INR m) /\
+  (forall a b, (a < ncols)%nat -> (b < ncols)%nat ->
+     entry C a b = sigma m (fun k => centred rows mu k a * centred rows mu k b) / (INR m - 1) /\
+     entry C a b = entry C b a) /\
+  ((2 <= m)%nat -> psd ncols C).
+Proof.
+  intros ncols rows C H mu m. split; [|split].
+  - intros c Hc. apply column_mean_R. exact Hc.
+  - intros a b Ha Hb. split; [apply (cov_entry_form ncols rows C H) | apply (cov_symmetric ncols rows C H)]; assumption.
+  - apply (cov_psd ncols rows C H).
+Qed.
+
+(* a right inverse of a positive semi-definite matrix is positive semi-definite (what the LU
+   inversion is asked to deliver; the search checks S * sigmaInv = I numerically on every object) *)
+Theorem C17_inverse_of_psd_is_psd : forall n S T, psd n S -> right_inverse n S T -> psd n T.
+Proof. exact psd_right_inverse. Qed.
+
+(* hence: Mahalanobis built from data with >= 2 rows, or from any positive semi-definite
+   covariance, on an exact inverse, satisfies the metric laws *)
+Theorem C17_mahalanobis_from_data_metric : forall ncols rows C T,
+  cov ROps ncols rows = Some C -> (2 <= length rows)%nat -> right_inverse ncols C T ->
+  metric_laws (mahalanobis ROps ncols T).
+Proof.
+  intros ncols rows C T H Hm Hinv. apply mahalanobis_metric.
+  apply (psd_right_inverse ncols C T); [apply (cov_psd ncols rows C H Hm) | exact Hinv].
+Qed.
+Theorem C17_mahalanobis_from_covariance_metric : forall n S T,
+  psd n S -> right_inverse n S T -> metric_laws (mahalanobis ROps n T).
+Proof. intros n S T HS Hinv. apply mahalanobis_metric. exact (psd_right_inverse n S T HS Hinv). Qed.
 
 (* ---------------- coincidences ---------------- *)
 Theorem C17_minkowski_1_is_manhattan : forall x y, minkowski ROps 1 x y = manhattan ROps x y.
@@ -154,3 +191,18 @@ Proof.
 Qed.
 Example C17_psd_identity_instance : forall n, psd n (identity_matrix n).
 Proof. exact psd_identity. Qed.
+
+(* a covariance, its inverse, and data with two or more rows *)
+Example C17_right_inverse_instance :
+  right_inverse 2 [[2; 1]; [1; 1]] [[1; -1]; [-1; 2]] /\ psd 2 [[2; 1]; [1; 1]].
+Proof.
+  split.
+  - intros i j Hi Hj. unfold sigma, entry. cbn [seq map Rsum fold_right].
+    destruct i as [|[|i]]; destruct j as [|[|j]]; try lia; cbn [nth Nat.eqb]; lra.
+  - intros w. unfold qform, sigma, entry. cbn [seq map Rsum fold_right nth].
+    assert (0 <= (w 0%nat + w 1%nat) * (w 0%nat + w 1%nat)) by exact (Rle_0_sqr _).
+    assert (0 <= w 0%nat * w 0%nat) by exact (Rle_0_sqr _). lra.
+Qed.
+Example C17_cov_instance :
+  exists C, cov ROps 2 [[1; 2]; [3; 1]; [2; 6]] = Some C /\ (2 <= length [[1; 2]; [3; 1]; [2; 6]])%nat.
+Proof. eexists. split; [reflexivity | cbn; lia]. Qed.
